@@ -1047,7 +1047,7 @@ func ruleMemoryImageBounds(r *Run, rule string) {
 					if (s.kind != "index" && s.kind != "slice") || !strings.HasSuffix(s.target, ".Memory") || s.write {
 						continue
 					}
-					r.check(s.upper, rule, v.rel+"."+s.desc, s.pos, "a read of the memory image is guarded against running past its end (upper bound proved: %v; lower bound proved: %v)", s.upper, s.lower)
+					r.check(s.upper && s.lower, rule, v.rel+"."+s.desc, s.pos, "a read of the memory image is guarded on both sides: a wrong-path load is fetched before its branch resolves and can carry any address, past the end of the image or negative (upper bound proved: %v; lower bound proved: %v)", s.upper, s.lower)
 				}
 			}
 		}
